@@ -61,7 +61,11 @@ func (c CurlyRouter) matchesRouteByPathTokens(routeTokens, requestTokens []strin
 	if len(routeTokens) < len(requestTokens) {
 		// proceed in matching only if last routeToken is wildcard
 		count := len(routeTokens)
-		if count == 0 || !strings.HasSuffix(routeTokens[count-1], "*}") {
+		if count == 0 {
+			return false, 0, 0
+		}
+		last := routeTokens[count-1]
+		if colon := strings.Index(last, ":"); !strings.HasPrefix(last, "{") || colon == -1 || last[colon+1:] != "*}" {
 			return false, 0, 0
 		}
 		// proceed
